@@ -22,20 +22,19 @@ func init() { register("C04", checkC04) }
 // bounds table, the row of the "Allowed values" table in doc.go and the
 // time.Time accessor that reads the field on the wall clock.
 type c04Role struct {
-	Field    string // ParseOption constant and SpecSchedule field
-	Bounds   string // package-level bounds table
+	Field    string // ParseOption constant and SpecSchedule field (exported API names)
 	DocField string // row name in doc.go ("" = not in the published table)
 	Accessor string // time.Time method
 	Floor    int64  // smallest value of the accessor (what a carry lands on)
 }
 
 var c04Roles = []c04Role{
-	{"Second", "seconds", "", "Second", 0},
-	{"Minute", "minutes", "Minutes", "Minute", 0},
-	{"Hour", "hours", "Hours", "Hour", 0},
-	{"Dom", "dom", "Day of month", "Day", 1},
-	{"Month", "months", "Month", "Month", 1},
-	{"Dow", "dow", "Day of week", "Weekday", 0},
+	{"Second", "", "Second", 0},
+	{"Minute", "Minutes", "Minute", 0},
+	{"Hour", "Hours", "Hour", 0},
+	{"Dom", "Day of month", "Day", 1},
+	{"Month", "Month", "Month", 1},
+	{"Dow", "Day of week", "Weekday", 0},
 }
 
 func c04RoleOf(field string) *c04Role {
@@ -54,44 +53,56 @@ type c04State struct {
 	pkgPath string
 	spec    string // "pkgpath.SpecSchedule"
 	starBit uint64
-	bounds  map[string]*c04Bounds
-	places  []c04ListElem
-	defs    []c04ListElem
+	// roles resolved through types and dataflow, not through unexported names
+	boundsKey           string                // "pkgpath.<bounds type>"
+	boundsT             *types.Named          // the {min, max, names} table type
+	minF, maxF, namesF  string                // its field names, by role
+	tables              map[string]*c04Bounds // every package-level table, by variable name
+	bounds              map[string]*c04Bounds // table paired with SpecSchedule field F in Parse
+	placesVar, defsVar  string
+	places              []c04ListElem
+	defs                []c04ListElem
+	builder             *ssa.Function // (start, end, step) -> bit set
+	normaliser          *ssa.Function // raw columns -> six columns
+	normaliserFieldsArg int
+	descFn              *ssa.Function // descriptor -> Schedule
+	parseLits           []*c04T       // SpecSchedule literals reaching Parse's result
+	parseResults        [][]*c04T
 }
 
 func checkC04(c *Ctx) {
 	r, p := c.R, c.P
-	r.Explanation = "Decides structural necessary conditions of C04 on cron/parser.go, cron/spec.go, cron/constantdelay.go and cron/doc.go. " +
-		"Tables (E6): the six bounds tables equal the 'Allowed values' table of doc.go (seconds: the range of time.Time.Second) and stay below the star bit; month/weekday names map to the numbering of time.Month/time.Weekday; places/defaults have one entry per field in expression order and each default lies within its bounds; an omitted optional column is filled with the default of its own field at its own end; the seven predefined schedules of parseDescriptor, folded to constants, equal the 'Equivalent To' column of doc.go encoded with the parser's own getBits/all, and all() carries the star bit. " +
-		"Pairing: Parse builds SpecSchedule.F from expression column F with the bounds table of F; Next/dayMatches test SpecSchedule.F against the time.Time accessor of F (Month-Month, Dom-Day, Dow-Weekday, Hour, Minute, Second); dayMatches, evaluated for all 16 assignments of (dom matches, dow matches, dom has star, dow has star), is 'both' when a star is present and 'either' otherwise. " +
-		"Search (minimality): every search loop of Next continues while the bit is clear and leaves when it is set, advances by at most one unit of its field, resets all lower-order fields in the same iteration as the advance (before it, for months), and on a carry into the next higher field goes back to the top of the search so that the higher fields are verified again — the carry test must look at the instant the loop continues with (no Add/AddDate fix-up between the test and the next iteration) and must be detected by a test that still fires when the smallest value of the field does not exist on the wall clock (DST gap at local midnight / 30-minute DST); the search starts exactly at t truncated to the second plus one second (linear form in t.Nanosecond()), gives up with the zero time only for calendar years beyond start year + 5 (`>` with k>=5 or `>=` with k>=6), uses the schedule's Location and never a fixed zone; every SpecSchedule built by parseDescriptor (folded per documented descriptor with a symbolic loc) carries the loc parameter, and Parse stores in its own SpecSchedule / hands to parseDescriptor the location obtained from time.LoadLocation for a TZ=/CRON_TZ= prefix or time.Local without one. " +
-		"Refusal (E7+E2): every error produced in the parser layer reaches Parse's error result (including the first-error-wins cell of the field closure); getBits is only called under start>=min, end<=max, start<=end, step!=0 (facts may be established by a validation helper whose nil returns are consulted); on every decision-consistent path of getRange with a parsed step and a single parsed start value the end handed to getBits is the field maximum (doc.go: 'N/... means N-MAX/...'), independently of the step's value; normalizeFields succeeds only with a two-sided check of the number of fields; the int->uint conversion of a parsed number is dominated by a non-negativity check; '@every' goes through Every, Every stores a Delay >= 1 s, and ConstantDelaySchedule.Next is t.Add(Delay - t.Nanosecond()). " +
-		"NOT decided: the numerical result of Next as such — that the instant returned is the earliest matching one for every expression, start instant and zone (in particular the day loop's DST midnight fix-ups and repeated hours at fall-back); that Every rounds to whole seconds; the exact bit patterns getBits/getRange produce for ranges, steps ('*/n' losing the star bit) and lists; that the lower bound in the field-count check is the right number; acceptance of oddities such as '*-5' or ','."
+	r.Explanation = "Decides structural necessary conditions of C04 on package cron (parser.go, spec.go, constantdelay.go, doc.go). Only exported API names (Parser.Parse, ParseStandard, ParseOption constants, SpecSchedule and its fields, SpecSchedule.Next, ConstantDelaySchedule, Every) and the standard library are used as anchors; every unexported function, type, field, variable and constant is resolved by ROLE through types and dataflow (the field-table type = the struct with two unsigned fields and a name map of which package-level tables exist, min/max told apart by the table contents; the table of field F = the table Parse parses column F with; the column-order and default lists by their types; the normaliser, the column parser and the descriptor function by the types of the calls Parse makes; the bit-set builder by its signature; the star bit = the constant Next masks Dom/Dow with). Values are compared as TERMS in which same-package callees (functions, methods, closures) are inlined and merges become choices, so a test, step or reset is recognised wherever it is written; branch facts include short-circuit booleans evaluated to a value; validation helpers are consulted through their success returns. " +
+		"Tables (E6): the table each column is parsed with equals that column's row of the 'Allowed values' table of doc.go (seconds: the range of time.Time.Second) and stays below the star bit; month/weekday names map to the numbering of time.Month/time.Weekday; the column order list names the six fields in expression order and each default lies within its table; an omitted optional column is filled with the default of its own field at its own end; the seven predefined schedules of the descriptor function, folded to constants, equal the 'Equivalent To' column of doc.go in the encoding Next reads (value v = bit 1<<v, '*' = documented range plus star bit). " +
+		"Pairing: Parse builds SpecSchedule.F from normalised column #i with places[i] = F; Next and its callees test SpecSchedule.F against the time.Time accessor of F; the day rule (a function, method or the code of Next itself), evaluated symbolically for all 16 assignments of (dom matches, dow matches, dom has star, dow has star), is 'both' when a star is present and 'either' otherwise. " +
+		"Search (minimality): for every search loop of Next, from the term of the instant the loop continues with: it continues while the bit is clear, advances by at most one unit (Add/AddDate/Date(field+1)), sets all lower-order fields to their minimum in the same iteration (before the step, for months), and on a carry goes back to the top of the search; the carry test must look at the instant the loop continues with (no further Add/AddDate between test and next iteration) and must still fire when the smallest value of the field does not exist on the wall clock (DST gap at local midnight / 30-minute DST); the search starts exactly at t truncated to the second plus one second, gives up with the zero time only for calendar years beyond start year + 5, converts into SpecSchedule.Location and builds dates only in that location or t's own; every SpecSchedule of the descriptor function carries the location parameter; Parse stores/hands on the time.LoadLocation result of a TZ=/CRON_TZ= prefix or time.Local. " +
+		"Refusal (E7+E2): every error produced in the parser layer (the static call closure of Parse) is returned, tested with a failing return, or parked in a shared error variable (captured variable, *error parameter, named result, error field of a helper's receiver) for which a must-analysis shows that no nil-capable store happens while an error may be pending and no `return ..., nil` is reached while one may be pending; the bit-set builder is only called under start>=min, end<=max, start<=end, step!=0; on every decision-consistent path with a parsed step and a single parsed start value (also when start/end are two results of one helper) the end handed to the builder is the field maximum (doc.go: 'N/... means N-MAX/...'), independently of the step's value; the normaliser succeeds only with a two-sided check of the number of fields; the int->uint conversion of a parsed number is dominated by a non-negativity check; '@every' goes through Every, Every stores a Delay >= 1 s, and ConstantDelaySchedule.Next is t.Add(Delay - t.Nanosecond()). " +
+		"NOT decided: the numerical result of Next as such — that the instant returned is the earliest matching one for every expression, start instant and zone (in particular the day loop's DST midnight fix-ups and repeated hours at fall-back); that Every rounds to whole seconds; the exact bit patterns the builder/range parser produce for ranges, steps ('*/n' losing the star bit) and lists; that the lower bound in the field-count check is the right number; acceptance of oddities such as '*-5' or ','. Shapes the analysis cannot read (table-driven column loops, a bit-set builder inlined into its caller, descriptors dispatched through a map, a deferred closure rewriting the error) give UNDECIDED, never VIOLATION."
 	r.Assumptions = append(r.Assumptions,
 		"time.Time accessors, time.Date, Add, AddDate, Truncate, In behave as documented; time zones with a DST gap starting at local midnight (e.g. America/Havana, America/Sao_Paulo before 2019) and with 30-minute DST (Australia/Lord_Howe) exist in the tz database",
-		"bounds values only come from the six package-level tables (checked: no other composite literal of type bounds, no store to the tables outside init)",
-		"the SSA constant evaluator (c04eval.go) implements Go's integer semantics for the operators it folds")
+		"field-table values only come from the package-level tables (checked: no other composite literal of that type, no store to the tables outside init)",
+		"the SSA constant/symbolic evaluator (c04eval.go) implements Go's integer semantics for the operators it folds",
+		"values returned next to a certainly non-nil error are placeholders the caller does not use (the error-discipline rule checks that callers test the error)")
 
 	st := &c04State{c: c, p: p, r: r, pkgPath: p.ModPath + "/cron", bounds: map[string]*c04Bounds{}}
 	st.spec = st.pkgPath + ".SpecSchedule"
 	p.Named("cron", "SpecSchedule")
-	p.Named("cron", "bounds")
 
-	r.Rule("C04.P1-bounds", "each bounds table equals its row of the 'Allowed values' table in cron/doc.go (seconds: 0-59) and stays below the star bit", 6)
+	r.Rule("C04.P1-bounds", "the table each column is parsed with equals that column's row of the 'Allowed values' table in cron/doc.go (seconds: 0-59) and stays below the star bit", 6)
 	r.Rule("C04.P1-names", "month and weekday names cover JAN-DEC / SUN-SAT and map to the values of time.Month / time.Weekday", 2)
-	r.Rule("C04.P2-lists", "places lists the six fields in expression order; defaults has one in-bounds entry per field", 7)
+	r.Rule("C04.P2-lists", "the column order list names the six fields in expression order; the defaults list has one in-bounds entry per field", 7)
 	r.Rule("C04.P2-optional", "an omitted optional column is filled with the default of its own field, at its own end of the expression", 2)
-	r.Rule("C04.P2-pairing", "Parse builds SpecSchedule.F from expression column F parsed with the bounds table of F", 6)
-	r.Rule("C04.P3-matcher", "Next/dayMatches test SpecSchedule.F with bit 1<<accessor where accessor is the time.Time method of F", 6)
-	r.Rule("C04.N1-either-day", "dayMatches == (domStar||dowStar ? dom&&dow : dom||dow) for all 16 assignments", 1)
+	r.Rule("C04.P2-pairing", "Parse builds SpecSchedule.F from normalised column #i with order[i] = F, parsed with a package-level field table (whose contents P1 checks against the documentation of F)", 6)
+	r.Rule("C04.P3-matcher", "Next and its callees test SpecSchedule.F with bit 1<<accessor where accessor is the time.Time method of F", 6)
+	r.Rule("C04.N1-either-day", "the day condition of Next == (domStar||dowStar ? dom&&dow : dom||dow) for all 16 assignments (or its negation, with the loop polarity read accordingly)", 1)
 	r.Rule("C04.N2-search", "each search loop of Next: polarity, unit step, lower-order reset before the first step, carry goes back to the top and is detected DST-robustly", 18)
 	r.Rule("C04.N3-limit", "the search gives up (zero time) only for calendar years beyond start year + 5: `year > start+k` needs k >= 5, `year >= start+k` needs k >= 6", 1)
 	r.Rule("C04.D3-location", "every SpecSchedule built by parseDescriptor carries the loc parameter; Parse stores/passes the location parsed from the TZ=/CRON_TZ= prefix, or time.Local without prefix", 9)
 	r.Rule("C04.N4-zone", "Next converts into SpecSchedule.Location, builds wall-clock times only in that location (or t's own for time.Local) and starts from a whole second", 3)
-	r.Rule("C04.P4-errflow", "every error produced in the parser layer is returned (or parked in the first-error cell that Parse checks before succeeding)", 29)
-	r.Rule("C04.P4-range", "getBits is called only under start>=min, end<=max, start<=end, step!=0", 8)
-	r.Rule("C04.P5-nstep", "doc.go 'N/... means N-MAX/...': on every consistent path of getRange with a parsed step and a single parsed start value, the end handed to getBits is the field maximum, independently of the step's value", 1)
-	r.Rule("C04.P4-count", "normalizeFields succeeds only after a lower and an upper check of the number of fields", 2)
+	r.Rule("C04.P4-errflow", "every error produced in the parser layer is returned, or parked in a shared error variable that is never overwritten while pending and is tested before every success return", 29)
+	r.Rule("C04.P4-range", "the bit-set builder is called only under start>=min, end<=max, start<=end, step!=0", 8)
+	r.Rule("C04.P5-nstep", "doc.go 'N/... means N-MAX/...': on every consistent path of the range parser with a parsed step and a single parsed start value, the end handed to the bit-set builder is the field maximum, independently of the step's value", 1)
+	r.Rule("C04.P4-count", "the column normaliser succeeds only after a lower and an upper check of the number of fields (possibly in a validation helper)", 2)
 	r.Rule("C04.P4-nonneg", "a parsed number is converted to unsigned only after a non-negativity check", 1)
 	r.Rule("C04.D1-descriptors", "each predefined schedule folds to the encoding of its 'Equivalent To' expression in cron/doc.go", 7)
 	r.Rule("C04.D2-every", "'@every d' is built by Every (>= 1 s, whole seconds) and ConstantDelaySchedule.Next = t truncated to the second + Delay; Every stores a Delay >= 1 s", 3)
@@ -99,13 +110,13 @@ func checkC04(c *Ctx) {
 	if !st.loadTables() {
 		return
 	}
+	st.checkPairing()
+	na := st.checkMatcher()
 	st.checkBounds()
 	st.checkLists()
 	st.checkOptional()
-	st.checkPairing()
-	matcher := st.checkMatcher()
-	st.checkDayTable()
-	st.checkSearch(matcher)
+	st.checkDayTable(na)
+	st.checkSearch(na)
 	st.checkErrflow()
 	st.checkRange()
 	st.checkCount()
@@ -130,34 +141,151 @@ func checkC04(c *Ctx) {
 
 func (st *c04State) loadTables() bool {
 	pkg := st.p.Pkg("cron")
-	// starBit
-	sb, ok := pkg.Types.Scope().Lookup("starBit").(*types.Const)
-	if !ok {
-		undecided("anchor constant cron.starBit no longer resolves")
+	scope := pkg.Types.Scope()
+	// the table type: an unexported-or-not named struct of this package with two
+	// fields of one unsigned integer type U and one field map[string]U, of which
+	// package-level variables exist
+	type cand struct {
+		named *types.Named
+		vars  []*types.Var
 	}
-	v, exact := constant.Uint64Val(constant.ToInt(sb.Val()))
-	if !exact {
-		undecided("cron.starBit is not an unsigned 64-bit constant")
-	}
-	st.starBit = v
-	for _, role := range c04Roles {
-		b, why := c04ReadBounds(pkg, role.Bounds)
-		if b == nil {
-			undecided("bounds table cron.%s: %s", role.Bounds, why)
+	cands := map[string]*cand{}
+	for _, n := range scope.Names() {
+		v, ok := scope.Lookup(n).(*types.Var)
+		if !ok {
+			continue
 		}
-		st.bounds[role.Field] = b
+		named, ok := v.Type().(*types.Named)
+		if !ok || named.Obj().Pkg() != pkg.Types {
+			continue
+		}
+		stt, ok := named.Underlying().(*types.Struct)
+		if !ok {
+			continue
+		}
+		var uintFields, mapFields int
+		var ut types.Type
+		okShape := true
+		for i := 0; i < stt.NumFields(); i++ {
+			ft := stt.Field(i).Type()
+			if bt, ok := ft.Underlying().(*types.Basic); ok && bt.Info()&types.IsUnsigned != 0 {
+				if ut != nil && !types.Identical(ut, ft) {
+					okShape = false
+				}
+				ut = ft
+				uintFields++
+				continue
+			}
+			if mt, ok := ft.Underlying().(*types.Map); ok {
+				if kb, ok := mt.Key().Underlying().(*types.Basic); ok && kb.Kind() == types.String {
+					mapFields++
+					continue
+				}
+			}
+			okShape = false
+		}
+		if !okShape || uintFields != 2 || mapFields != 1 {
+			continue
+		}
+		k := named.Obj().Name()
+		if cands[k] == nil {
+			cands[k] = &cand{named: named}
+		}
+		cands[k].vars = append(cands[k].vars, v)
+	}
+	if len(cands) != 1 {
+		undecided("the table type of the cron fields (struct {min, max uint; names map[string]uint} with package-level tables) does not resolve uniquely (%d candidates)", len(cands))
+	}
+	var bc *cand
+	for _, c := range cands {
+		bc = c
+	}
+	st.boundsT = bc.named
+	st.boundsKey = st.pkgPath + "." + bc.named.Obj().Name()
+	stt := bc.named.Underlying().(*types.Struct)
+	var uf []string
+	for i := 0; i < stt.NumFields(); i++ {
+		if _, isMap := stt.Field(i).Type().Underlying().(*types.Map); isMap {
+			st.namesF = stt.Field(i).Name()
+		} else {
+			uf = append(uf, stt.Field(i).Name())
+		}
+	}
+	st.tables = map[string]*c04Bounds{}
+	for _, v := range bc.vars {
+		b, why := c04ReadTable(pkg, v.Name())
+		if b == nil {
+			undecided("field table cron.%s: %s", v.Name(), why)
+		}
+		st.tables[v.Name()] = b
+	}
+	// which of the two unsigned fields is the minimum: the one that is <= the other in every table
+	aLE, bLE, strict := true, true, false
+	for _, t := range st.tables {
+		x, y := t.Fields[uf[0]], t.Fields[uf[1]]
+		if x > y {
+			aLE = false
+		}
+		if y > x {
+			bLE = false
+		}
+		if x != y {
+			strict = true
+		}
+	}
+	switch {
+	case aLE && strict:
+		st.minF, st.maxF = uf[0], uf[1]
+	case bLE && strict:
+		st.minF, st.maxF = uf[1], uf[0]
+	default:
+		undecided("the minimum/maximum roles of the fields %s/%s of cron.%s cannot be told from the tables (no consistent order)", uf[0], uf[1], bc.named.Obj().Name())
+	}
+	for _, t := range st.tables {
+		t.Min, t.Max = t.Fields[st.minF], t.Fields[st.maxF]
+	}
+	// the column order list ([]ParseOption) and the defaults list ([]string)
+	for _, n := range scope.Names() {
+		v, ok := scope.Lookup(n).(*types.Var)
+		if !ok {
+			continue
+		}
+		var elem types.Type
+		switch lt := v.Type().Underlying().(type) {
+		case *types.Slice:
+			elem = lt.Elem()
+		case *types.Array:
+			elem = lt.Elem()
+		default:
+			continue
+		}
+		if named, ok := elem.(*types.Named); ok && named.Obj().Name() == "ParseOption" && named.Obj().Pkg() == pkg.Types {
+			if st.placesVar != "" {
+				undecided("two package-level []ParseOption lists (%s, %s): the column order list does not resolve", st.placesVar, n)
+			}
+			st.placesVar = n
+		}
+		if bt, ok := elem.Underlying().(*types.Basic); ok && bt.Kind() == types.String {
+			if st.defsVar != "" {
+				undecided("two package-level []string lists (%s, %s): the defaults list does not resolve", st.defsVar, n)
+			}
+			st.defsVar = n
+		}
+	}
+	if st.placesVar == "" || st.defsVar == "" {
+		undecided("the package-level column order list ([]ParseOption) / defaults list ([]string) of package cron no longer resolve")
 	}
 	var why string
-	st.places, _, why = c04ReadList(pkg, "places")
+	st.places, _, why = c04ReadList(pkg, st.placesVar)
 	if why != "" {
-		undecided("cron.places: %s", why)
+		undecided("cron.%s: %s", st.placesVar, why)
 	}
-	st.defs, _, why = c04ReadList(pkg, "defaults")
+	st.defs, _, why = c04ReadList(pkg, st.defsVar)
 	if why != "" {
-		undecided("cron.defaults: %s", why)
+		undecided("cron.%s: %s", st.defsVar, why)
 	}
 	// the tables are constants of the program: no store outside init, no
-	// other value of type bounds is ever built
+	// other value of the table type is ever built
 	for _, fn := range st.p.FuncsOfPkg("cron") {
 		if fn.Name() == "init" && fn.Parent() == nil {
 			continue
@@ -165,18 +293,53 @@ func (st *c04State) loadTables() bool {
 		allInstrs(fn, func(in ssa.Instruction) {
 			if s, ok := in.(*ssa.Store); ok {
 				if g := c04GlobalOfAddr(s.Addr); g != nil && g.Pkg != nil && g.Pkg.Pkg.Path() == st.pkgPath {
-					switch g.Name() {
-					case "seconds", "minutes", "hours", "dom", "months", "dow", "places", "defaults":
+					if st.tables[g.Name()] != nil || g.Name() == st.placesVar || g.Name() == st.defsVar {
 						undecided("%s stores to the table cron.%s: the tables are no longer constants", FuncName(st.p, fn), g.Name())
 					}
 				}
 			}
-			if a, ok := in.(*ssa.Alloc); ok && a.Comment == "complit" && namedKey(deref1(a.Type())) == st.pkgPath+".bounds" {
-				undecided("%s builds a bounds value outside the six tables", FuncName(st.p, fn))
+			if a, ok := in.(*ssa.Alloc); ok && a.Comment == "complit" && namedKey(deref1(a.Type())) == st.boundsKey {
+				undecided("%s builds a field table value outside the package-level tables", FuncName(st.p, fn))
 			}
 		})
 	}
+	// the bit-set builder: the function of this package with signature (U, U, U) uint64
+	for _, fn := range st.p.FuncsOfPkg("cron") {
+		if fn.Parent() != nil || fn.Signature.Recv() != nil {
+			continue
+		}
+		sig := fn.Signature
+		if sig.Params().Len() != 3 || sig.Results().Len() != 1 {
+			continue
+		}
+		okSig := true
+		for i := 0; i < 3; i++ {
+			if bt, ok := sig.Params().At(i).Type().Underlying().(*types.Basic); !ok || bt.Info()&types.IsUnsigned == 0 {
+				okSig = false
+			}
+		}
+		if rb, ok := sig.Results().At(0).Type().Underlying().(*types.Basic); !ok || rb.Kind() != types.Uint64 {
+			okSig = false
+		}
+		if okSig {
+			if st.builder != nil {
+				st.builder = nil
+				break
+			}
+			st.builder = fn
+		}
+	}
 	return true
+}
+
+// tableOfGlobalLoad: v is the value of (a load of) one of the package-level tables.
+func (st *c04State) tableOfValue(v ssa.Value) *c04Bounds {
+	if ld, ok := v.(*ssa.UnOp); ok && ld.Op == token.MUL {
+		if g, ok := ld.X.(*ssa.Global); ok && g.Pkg != nil && g.Pkg.Pkg.Path() == st.pkgPath {
+			return st.tables[g.Name()]
+		}
+	}
+	return nil
 }
 
 func c04GlobalOfAddr(v ssa.Value) *ssa.Global {
@@ -210,9 +373,18 @@ func (st *c04State) checkBounds() {
 		rowOf[rows[i].Field] = &rows[i]
 	}
 	_ = docPos
+	starIdx := -1
+	for i := 0; i < 64; i++ {
+		if st.starBit == 1<<uint(i) {
+			starIdx = i
+		}
+	}
 	for _, role := range c04Roles {
 		b := st.bounds[role.Field]
-		construct := "cron." + role.Bounds + " range"
+		if b == nil {
+			continue // the pairing rule could not tell which table belongs to this field (reported there)
+		}
+		construct := "cron field table of " + role.Field + ": range"
 		wantMin, wantMax := uint64(0), uint64(59)
 		src := "the range of time.Time.Second (no row in doc.go)"
 		if role.DocField != "" {
@@ -229,9 +401,9 @@ func (st *c04State) checkBounds() {
 			if b.Min > wantMin || b.Max < wantMax {
 				what = "'*' and open ranges no longer cover every documented value of the field (and documented values are refused)"
 			}
-			r.Violation("C04.P1-bounds", construct, p.Pos(b.Pos), fmt.Sprintf("cron.%s is %d-%d but %s says %d-%d: %s", role.Bounds, b.Min, b.Max, src, wantMin, wantMax, what))
-		case b.Max >= 63 || st.starBit != 1<<63:
-			r.Violation("C04.P1-bounds", construct, p.Pos(b.Pos), fmt.Sprintf("cron.%s reaches bit %d which collides with the star bit %#x", role.Bounds, b.Max, st.starBit))
+			r.Violation("C04.P1-bounds", construct, p.Pos(b.Pos), fmt.Sprintf("cron.%s (the table the %s column is parsed with) is %d-%d but %s says %d-%d: %s", b.Name, role.Field, b.Min, b.Max, src, wantMin, wantMax, what))
+		case st.starBit != 0 && (starIdx < 0 || int(b.Max) >= starIdx):
+			r.Violation("C04.P1-bounds", construct, p.Pos(b.Pos), fmt.Sprintf("cron.%s reaches bit %d which collides with the star bit %#x", b.Name, b.Max, st.starBit))
 		default:
 			r.OK("C04.P1-bounds", construct, p.Pos(b.Pos), fmt.Sprintf("%d-%d = %s", b.Min, b.Max, src))
 		}
@@ -244,7 +416,10 @@ func (st *c04State) checkBounds() {
 	for _, nm := range []struct{ field, typ string }{{"Month", "Month"}, {"Dow", "Weekday"}} {
 		role := c04RoleOf(nm.field)
 		b := st.bounds[nm.field]
-		construct := "cron." + role.Bounds + " names"
+		if b == nil {
+			continue
+		}
+		construct := "cron field table of " + role.Field + ": names"
 		row := rowOf[role.DocField]
 		// constants of time.<typ>
 		want := map[string]uint64{} // lower-case 3-letter prefix -> value
@@ -275,7 +450,7 @@ func (st *c04State) checkBounds() {
 			case w != v:
 				problems = append(problems, fmt.Sprintf("name %q maps to %d but Next compares with time.%s = %d", k, v, full[strings.ToLower(k)], w))
 			case k != strings.ToLower(k):
-				r.Note("cron.%s: name key %q is not lower-case (lookups are lower-cased)", role.Bounds, k)
+				r.Note("cron.%s: name key %q is not lower-case (lookups are lower-cased)", b.Name, k)
 			}
 		}
 		for k, n := range full {
@@ -300,7 +475,7 @@ func (st *c04State) checkBounds() {
 
 func (st *c04State) checkLists() {
 	r, p := st.r, st.p
-	_, pos := c04PkgVarInit(p.Pkg("cron"), "places")
+	_, pos := c04PkgVarInit(p.Pkg("cron"), st.placesVar)
 	var got []string
 	for _, e := range st.places {
 		got = append(got, e.ConstName)
@@ -309,171 +484,236 @@ func (st *c04State) checkLists() {
 	for _, role := range c04Roles {
 		want = append(want, role.Field)
 	}
-	r.Check(strings.Join(got, ",") == strings.Join(want, ","), "C04.P2-lists", "cron.places order", p.Pos(pos),
-		"places = "+strings.Join(got, ","), "places is "+strings.Join(got, ",")+" but the expression columns are "+strings.Join(want, ",")+": normalizeFields hands columns to the wrong fields")
-	_, dpos := c04PkgVarInit(p.Pkg("cron"), "defaults")
+	r.Check(strings.Join(got, ",") == strings.Join(want, ","), "C04.P2-lists", "cron column order list", p.Pos(pos),
+		"cron."+st.placesVar+" = "+strings.Join(got, ","), "cron."+st.placesVar+" is "+strings.Join(got, ",")+" but the expression columns are "+strings.Join(want, ",")+": the columns are handed to the wrong fields")
+	_, dpos := c04PkgVarInit(p.Pkg("cron"), st.defsVar)
 	for i, role := range c04Roles {
-		construct := "cron.defaults[" + role.Field + "]"
+		construct := "cron column defaults[" + role.Field + "]"
 		if i >= len(st.defs) {
-			r.Violation("C04.P2-lists", construct, p.Pos(dpos), "defaults has no entry for this field: an omitted "+role.Field+" column is parsed from an empty string")
+			r.Violation("C04.P2-lists", construct, p.Pos(dpos), "cron."+st.defsVar+" has no entry for this field: an omitted "+role.Field+" column is parsed from an empty string")
 			continue
 		}
 		d := st.defs[i]
 		b := st.bounds[role.Field]
 		ok := d.IsStr && (d.Str == "*" || d.Str == "?")
 		if d.IsStr && !ok {
+			if b == nil {
+				continue // the table of this field is not known (pairing undecided)
+			}
 			if n, err := strconv.ParseUint(d.Str, 10, 64); err == nil && n >= b.Min && n <= b.Max {
 				ok = true
 			}
 		}
+		lo, hi := uint64(0), uint64(0)
+		if b != nil {
+			lo, hi = b.Min, b.Max
+		}
 		r.Check(ok, "C04.P2-lists", construct, p.Pos(dpos), "default "+strconv.Quote(d.Str)+" is within bounds",
-			fmt.Sprintf("default %q of an omitted %s column is not '*' nor a number in %d-%d: every expression for a parser without that column is refused or misread", d.Str, role.Field, b.Min, b.Max))
+			fmt.Sprintf("default %q of an omitted %s column is not '*' nor a number in %d-%d: every expression for a parser without that column is refused or misread", d.Str, role.Field, lo, hi))
 	}
 	if len(st.defs) != len(c04Roles) {
-		r.Violation("C04.P2-lists", "cron.defaults length", p.Pos(dpos), fmt.Sprintf("defaults has %d entries for %d fields", len(st.defs), len(c04Roles)))
+		r.Violation("C04.P2-lists", "cron column defaults length", p.Pos(dpos), fmt.Sprintf("cron.%s has %d entries for %d fields", st.defsVar, len(st.defs), len(c04Roles)))
 	}
 }
 
 // ---------------------------------------------------------------------------
 // P2 pairing in Parse
 
-// c04GetFieldArgs traces a value to the (expression, bounds) arguments of the
-// getField call that produced it, looking through Extract and through module
-// wrappers/closures that forward their own parameters to getField.
-func (st *c04State) c04GetFieldArgs(v ssa.Value, getField *ssa.Function, depth int) (expr, bnd ssa.Value, ok bool) {
-	if depth > 4 {
-		return nil, nil, false
-	}
-	if ex, isEx := v.(*ssa.Extract); isEx && ex.Index == 0 {
-		v = ex.Tuple
-	}
-	call, isCall := v.(*ssa.Call)
-	if !isCall {
-		return nil, nil, false
-	}
-	callee := staticCallee(call)
-	if callee == nil {
-		return nil, nil, false
-	}
-	if callee == getField {
-		if len(call.Call.Args) != 2 {
-			return nil, nil, false
+// parseTerms builds the terms of Parse's results. Three roles are kept as
+// opaque call nodes instead of being inlined, recognised by their types:
+// the column parser (takes a string and a field table), the normaliser
+// (returns a []string) and the descriptor function (takes a *time.Location and
+// returns an interface value).
+func (st *c04State) parseTerms() (tb *c04TermBuilder, root *c04Frame2, results [][]*c04T) {
+	p := st.p
+	parse := p.Func("cron", "Parser.Parse")
+	tb = newC04TermBuilder(p)
+	tb.Opaque = func(f *ssa.Function) bool {
+		sig := f.Signature
+		hasStr, hasTable, hasLoc := false, false, false
+		for i := 0; i < sig.Params().Len(); i++ {
+			t := sig.Params().At(i).Type()
+			if bt, ok := t.Underlying().(*types.Basic); ok && bt.Kind() == types.String {
+				hasStr = true
+			}
+			if namedKey(t) == st.boundsKey {
+				hasTable = true
+			}
+			if namedKey(t) == "time.Location" {
+				hasLoc = true
+			}
 		}
-		return call.Call.Args[0], call.Call.Args[1], true
-	}
-	if !st.p.InModule(callee) {
-		return nil, nil, false
-	}
-	// wrapper: exactly one inner call that leads to getField with the wrapper's parameters
-	var found [][2]int
-	allInstrs(callee, func(in ssa.Instruction) {
-		ic, isC := in.(*ssa.Call)
-		if !isC {
-			return
+		if hasStr && hasTable {
+			return true
 		}
-		e, b, ok := st.c04GetFieldArgs(ic, getField, depth+1)
-		if !ok {
-			return
+		if sig.Results().Len() > 0 {
+			r0 := sig.Results().At(0).Type()
+			if sl, ok := r0.Underlying().(*types.Slice); ok {
+				if bt, ok := sl.Elem().Underlying().(*types.Basic); ok && bt.Kind() == types.String {
+					return true
+				}
+			}
+			if _, isIface := r0.Underlying().(*types.Interface); isIface && hasLoc && hasStr {
+				return true
+			}
 		}
-		ei, bi := c04ParamIndex(callee, e), c04ParamIndex(callee, b)
-		found = append(found, [2]int{ei, bi})
-	})
-	if len(found) != 1 || found[0][0] < 0 || found[0][1] < 0 {
-		return nil, nil, false
+		return false
 	}
-	if found[0][0] >= len(call.Call.Args) || found[0][1] >= len(call.Call.Args) {
-		return nil, nil, false
+	root = tb.Root(parse)
+	for _, b := range parse.Blocks {
+		if len(b.Instrs) == 0 {
+			continue
+		}
+		if ret, ok := b.Instrs[len(b.Instrs)-1].(*ssa.Return); ok {
+			var row []*c04T
+			for _, rv := range ret.Results {
+				row = append(row, tb.Term(root, rv))
+			}
+			results = append(results, row)
+		}
 	}
-	return call.Call.Args[found[0][0]], call.Call.Args[found[0][1]], true
+	return
 }
 
-func c04ParamIndex(fn *ssa.Function, v ssa.Value) int {
-	for i, p := range fn.Params {
-		if p == v {
-			return i
+// resolveParseRoles finds the normaliser and the descriptor function among the opaque calls of Parse.
+func (st *c04State) resolveParseRoles(results [][]*c04T) {
+	p := st.p
+	for _, row := range results {
+		for _, t := range row {
+			t.walk(func(x *c04T) {
+				if x.Op != "call" {
+					return
+				}
+				c, ok := x.Src.(*ssa.Call)
+				if !ok {
+					return
+				}
+				f := staticCallee(c)
+				if f == nil {
+					return
+				}
+				sig := f.Signature
+				if sig.Results().Len() == 0 {
+					return
+				}
+				r0 := sig.Results().At(0).Type()
+				if _, ok := r0.Underlying().(*types.Slice); ok && st.normaliser == nil {
+					st.normaliser = f
+					st.normaliserFieldsArg = -1
+					for i, a := range x.Args {
+						if a.contains(func(y *c04T) bool { return y.Op == "ext:strings.Fields" }) {
+							st.normaliserFieldsArg = i
+						}
+					}
+				}
+				if _, ok := r0.Underlying().(*types.Interface); ok && st.descFn == nil {
+					st.descFn = f
+				}
+			})
 		}
 	}
-	return -1
+	_ = p
 }
 
 func (st *c04State) checkPairing() {
 	r, p := st.r, st.p
 	parse := p.Func("cron", "Parser.Parse")
-	getField := p.Func("cron", "getField")
-	normalize := p.Func("cron", "normalizeFields")
-	// stores into a SpecSchedule built in Parse
-	stores := map[string]*ssa.Store{}
-	haveLit := false
-	allInstrs(parse, func(in ssa.Instruction) {
-		if a, ok := in.(*ssa.Alloc); ok && namedKey(deref1(a.Type())) == st.spec {
-			haveLit = true
+	_, _, results := st.parseTerms()
+	st.parseResults = results
+	st.resolveParseRoles(results)
+	// the SpecSchedule literals Parse itself builds (directly or through an inlined constructor helper)
+	var lits []*c04T
+	for _, row := range results {
+		if len(row) == 0 {
+			continue
 		}
-		s, ok := in.(*ssa.Store)
-		if !ok {
-			return
+		for _, alt := range row[0].alts() {
+			if alt.Op == "struct" && alt.Name == st.spec {
+				lits = append(lits, alt)
+			}
 		}
-		fa, ok := s.Addr.(*ssa.FieldAddr)
-		if !ok {
-			return
-		}
-		id := fieldIDOfAddr(fa)
-		if id.Type != st.spec {
-			return
-		}
-		if _, isAlloc := fa.X.(*ssa.Alloc); isAlloc {
-			stores[id.Field] = s
-		}
-	})
-	if !haveLit {
-		r.Undecide("Parser.Parse no longer builds the SpecSchedule itself: the column/bounds/field pairing cannot be traced")
+	}
+	st.parseLits = lits
+	if len(lits) == 0 {
+		r.Undecide("Parser.Parse: no SpecSchedule built by Parse (or by a constructor helper it calls) reaches its result: the column/table/field pairing cannot be traced")
 		return
+	}
+	specT := p.Named("cron", "SpecSchedule").Underlying().(*types.Struct)
+	idxOf := map[string]int{}
+	for i := 0; i < specT.NumFields(); i++ {
+		idxOf[specT.Field(i).Name()] = i
+	}
+	posOf := func(t *c04T) token.Pos {
+		if t != nil && t.Src != nil && t.Src.Pos().IsValid() {
+			return t.Src.Pos()
+		}
+		return parse.Pos()
 	}
 	for _, role := range c04Roles {
 		construct := "cron.Parser.Parse -> SpecSchedule." + role.Field
-		s := stores[role.Field]
-		if s == nil {
-			r.Violation("C04.P2-pairing", construct, p.Pos(parse.Pos()), "Parse never sets SpecSchedule."+role.Field+": the "+role.Field+" column of every expression is ignored (the zero set matches nothing)")
-			continue
+		type pair struct {
+			col   int
+			table string
 		}
-		expr, bnd, ok := st.c04GetFieldArgs(s.Val, getField, 0)
-		if !ok {
-			r.Undecide("Parser.Parse: cannot trace the value stored into SpecSchedule.%s back to a getField call", role.Field)
-			continue
-		}
-		// expression: fields[i] of normalizeFields' result
-		idx := -1
-		if ld, ok := expr.(*ssa.UnOp); ok && ld.Op == token.MUL {
-			if ia, ok := ld.X.(*ssa.IndexAddr); ok {
-				if k, ok := ia.Index.(*ssa.Const); ok && k.Value != nil {
-					if ex, ok := ia.X.(*ssa.Extract); ok && ex.Index == 0 {
-						if nc, ok := ex.Tuple.(*ssa.Call); ok && staticCallee(nc) == normalize {
-							idx = int(k.Int64())
+		pairs := map[pair]*c04T{}
+		problem := ""
+		zero := false
+		for _, lit := range lits {
+			ft := lit.Args[idxOf[role.Field]]
+			if ft.Op == "const" && strings.HasPrefix(ft.Name, "zero:") {
+				zero = true
+				continue
+			}
+			nCalls := 0
+			ft.walk(func(x *c04T) {
+				if x.Op != "call" {
+					return
+				}
+				// a column parser call: one argument is cols[const], another a table
+				col, table := -1, ""
+				for _, a := range x.Args {
+					if a.Op == "index" && len(a.Args) == 2 && a.Args[1].IsK {
+						if a.Args[0].contains(func(y *c04T) bool { return y.Op == "call" }) {
+							col = int(a.Args[1].K)
+						}
+					}
+					if (a.Op == "global" || a.Op == "addr-global") && strings.HasPrefix(a.Name, st.pkgPath+".") {
+						if n := strings.TrimPrefix(a.Name, st.pkgPath+"."); st.tables[n] != nil {
+							table = n
 						}
 					}
 				}
+				if col >= 0 && table != "" {
+					nCalls++
+					pairs[pair{col, table}] = x
+				}
+			})
+			if nCalls == 0 {
+				problem = "the value stored into SpecSchedule." + role.Field + " is not the result of parsing normalised column [const] with a package-level field table"
 			}
-		}
-		gname := ""
-		if ld, ok := bnd.(*ssa.UnOp); ok && ld.Op == token.MUL {
-			if g, ok := ld.X.(*ssa.Global); ok && g.Pkg != nil && g.Pkg.Pkg.Path() == st.pkgPath {
-				gname = g.Name()
-			}
-		}
-		if idx < 0 || gname == "" {
-			r.Undecide("Parser.Parse: the getField call feeding SpecSchedule.%s does not take normalizeFields(...)[const] and a bounds table directly", role.Field)
-			continue
-		}
-		col := "?"
-		if idx < len(st.places) {
-			col = st.places[idx].ConstName
 		}
 		switch {
-		case col != role.Field:
-			r.Violation("C04.P2-pairing", construct, p.Pos(s.Pos()), fmt.Sprintf("SpecSchedule.%s is parsed from expression column #%d, which normalizeFields fills with the %s column", role.Field, idx, col))
-		case gname != role.Bounds:
-			r.Violation("C04.P2-pairing", construct, p.Pos(s.Pos()), fmt.Sprintf("the %s column is parsed with the bounds table cron.%s instead of cron.%s: wrong range, names and meaning of '*'", role.Field, gname, role.Bounds))
+		case zero && len(pairs) == 0:
+			r.Violation("C04.P2-pairing", construct, p.Pos(parse.Pos()), "Parse never sets SpecSchedule."+role.Field+": the "+role.Field+" column of every expression is ignored (the zero set matches nothing)")
+		case problem != "" || len(pairs) != 1:
+			if problem == "" {
+				problem = "SpecSchedule." + role.Field + " is built from several different column/table pairs"
+			}
+			r.Undecide("Parser.Parse: %s", problem)
 		default:
-			r.OK("C04.P2-pairing", construct, p.Pos(s.Pos()), fmt.Sprintf("column #%d (%s) parsed with cron.%s", idx, col, gname))
+			for pr, t := range pairs {
+				col := "?"
+				if pr.col < len(st.places) {
+					col = st.places[pr.col].ConstName
+				}
+				if col != role.Field {
+					r.Violation("C04.P2-pairing", construct, p.Pos(posOf(t)), fmt.Sprintf("SpecSchedule.%s is parsed from expression column #%d, which the normaliser fills with the %s column", role.Field, pr.col, col))
+					continue
+				}
+				// the table this field is parsed with defines "the table of F"; its contents are checked against doc.go by P1
+				st.bounds[role.Field] = st.tables[pr.table]
+				r.OK("C04.P2-pairing", construct, p.Pos(posOf(t)), fmt.Sprintf("column #%d (%s) parsed with the table cron.%s", pr.col, col, pr.table))
+			}
 		}
 	}
 }
@@ -511,200 +751,60 @@ func c04TimeCall(v ssa.Value) (string, *ssa.Call, bool) {
 	return obj.Name(), call, true
 }
 
-func (st *c04State) specFieldLoad(v ssa.Value) (string, bool) {
-	switch x := v.(type) {
-	case *ssa.UnOp:
-		if x.Op == token.MUL {
-			if fa, ok := x.X.(*ssa.FieldAddr); ok {
-				if id := fieldIDOfAddr(fa); id.Type == st.spec {
-					return id.Field, true
-				}
-			}
-		}
-	case *ssa.Field:
-		if id := fieldIDOfField(x); id.Type == st.spec {
-			return id.Field, true
-		}
-	}
-	return "", false
-}
-
-type c04And struct {
-	Kind     string // "match" | "star"
-	Field    string
-	Accessor string
-	Op       *ssa.BinOp
-	Fn       *ssa.Function
-}
-
-// classifyAnd recognises `1<<acc(t) & s.F` and `s.F & starBit`.
-func (st *c04State) classifyAnd(bo *ssa.BinOp) (c04And, bool) {
-	if bo.Op != token.AND {
-		return c04And{}, false
-	}
-	for _, pair := range [][2]ssa.Value{{bo.X, bo.Y}, {bo.Y, bo.X}} {
-		f, ok := st.specFieldLoad(pair[0])
-		if !ok || c04RoleOf(f) == nil {
-			continue
-		}
-		other := pair[1]
-		if k, ok := other.(*ssa.Const); ok && k.Value != nil {
-			if u, ok := constant.Uint64Val(constant.ToInt(k.Value)); ok && u == st.starBit {
-				return c04And{Kind: "star", Field: f, Op: bo, Fn: bo.Parent()}, true
-			}
-		}
-		if sh, ok := other.(*ssa.BinOp); ok && sh.Op == token.SHL {
-			if one, ok := sh.X.(*ssa.Const); ok && one.Value != nil && one.Uint64() == 1 {
-				if name, _, ok := c04TimeCall(sh.Y); ok {
-					return c04And{Kind: "match", Field: f, Accessor: name, Op: bo, Fn: bo.Parent()}, true
-				}
-			}
-		}
-	}
-	return c04And{}, false
-}
-
-// nextClosure: Next and the module functions it statically calls.
-func (st *c04State) nextClosure() []*ssa.Function {
-	next := st.p.Func("cron", "SpecSchedule.Next")
-	seen := map[*ssa.Function]bool{next: true}
-	order := []*ssa.Function{next}
-	for i := 0; i < len(order); i++ {
-		allInstrs(order[i], func(in ssa.Instruction) {
-			if c, ok := in.(ssa.CallInstruction); ok {
-				if f := staticCallee(c); f != nil && st.p.InModule(f) && !seen[f] {
-					seen[f] = true
-					order = append(order, f)
-				}
-			}
-		})
-	}
-	return order
-}
-
-func (st *c04State) checkMatcher() []c04And {
-	r, p := st.r, st.p
-	var ands []c04And
-	loaded := map[string]bool{}
-	for _, fn := range st.nextClosure() {
-		allInstrs(fn, func(in ssa.Instruction) {
-			if v, ok := in.(ssa.Value); ok {
-				if f, ok := st.specFieldLoad(v); ok {
-					loaded[f] = true
-				}
-			}
-			if bo, ok := in.(*ssa.BinOp); ok {
-				if a, ok := st.classifyAnd(bo); ok {
-					ands = append(ands, a)
-				}
-			}
-		})
-	}
-	for _, role := range c04Roles {
-		construct := "cron.SpecSchedule." + role.Field + " bit test"
-		var good, bad []c04And
-		for _, a := range ands {
-			if a.Kind != "match" || a.Field != role.Field {
-				continue
-			}
-			if a.Accessor == role.Accessor {
-				good = append(good, a)
-			} else {
-				bad = append(bad, a)
-			}
-		}
-		switch {
-		case len(bad) > 0:
-			r.Violation("C04.P3-matcher", construct, p.Pos(bad[0].Op.Pos()), fmt.Sprintf("%s tests SpecSchedule.%s (parsed from the %s column) against t.%s() instead of t.%s()", FuncName(p, bad[0].Fn), role.Field, role.Field, bad[0].Accessor, role.Accessor))
-		case len(good) > 0:
-			r.OK("C04.P3-matcher", construct, p.Pos(good[0].Op.Pos()), fmt.Sprintf("%s: 1<<t.%s() & s.%s", FuncName(p, good[0].Fn), role.Accessor, role.Field))
-		case !loaded[role.Field]:
-			r.Violation("C04.P3-matcher", construct, p.Pos(p.Func("cron", "SpecSchedule.Next").Pos()), "Next (and the functions it calls) never reads SpecSchedule."+role.Field+": the "+role.Field+" column of the expression does not restrict the result")
-		default:
-			r.Undecide("SpecSchedule.%s is read by Next but not in the form 1<<t.%s() & s.%s: matcher pairing cannot be decided", role.Field, role.Accessor, role.Field)
-		}
-	}
-	return ands
-}
-
-// ---------------------------------------------------------------------------
-// N1 either-day truth table
-
-func (st *c04State) checkDayTable() {
-	r, p := st.r, st.p
-	dm := p.Func("cron", "dayMatches")
-	construct := "cron.dayMatches truth table"
-	atoms := map[string][]*ssa.BinOp{}
-	allInstrs(dm, func(in ssa.Instruction) {
-		if bo, ok := in.(*ssa.BinOp); ok {
-			if a, ok := st.classifyAnd(bo); ok && (a.Field == "Dom" || a.Field == "Dow") {
-				atoms[a.Kind+":"+a.Field] = append(atoms[a.Kind+":"+a.Field], bo)
-			}
-		}
-	})
-	for _, k := range []string{"match:Dom", "match:Dow"} {
-		if len(atoms[k]) == 0 {
-			// the P3 rule reports the missing/crossed matcher; without the atoms the table cannot be built
-			r.Undecide("dayMatches: no bit test of the form 1<<t.X() & s.%s found: the either-day table cannot be evaluated", strings.TrimPrefix(k, "match:"))
-			return
-		}
-	}
-	var wrong []string
-	for m := 0; m < 16; m++ {
-		domStar, dowStar, dom, dow := m&8 != 0, m&4 != 0, m&2 != 0, m&1 != 0
-		ov := map[ssa.Value]any{}
-		set := func(key string, on bool, onVal uint64) {
-			for _, bo := range atoms[key] {
-				v := uint64(0)
-				if on {
-					v = onVal
-				}
-				ov[bo] = c04Int{V: v, Bits: 64}
-			}
-		}
-		set("star:Dom", domStar, st.starBit)
-		set("star:Dow", dowStar, st.starBit)
-		set("match:Dom", dom, 2)
-		set("match:Dow", dow, 2)
-		ev := &c04Eval{Override: ov, InModule: st.p.InModule}
-		res, err := ev.Run(dm, nil)
-		if err != nil {
-			r.Undecide("dayMatches cannot be evaluated as a boolean function of its four bit tests: %v", err)
-			return
-		}
-		got, ok := res.(bool)
-		if !ok {
-			r.Undecide("dayMatches does not fold to a boolean: %s", c04Describe(res))
-			return
-		}
-		want := dom || dow
-		if domStar || dowStar {
-			want = dom && dow
-		}
-		if got != want {
-			wrong = append(wrong, fmt.Sprintf("dom '*'=%v dow '*'=%v dom matches=%v dow matches=%v: returns %v, documented rule gives %v", domStar, dowStar, dom, dow, got, want))
-		}
-	}
-	msg := ""
-	if len(wrong) > 0 {
-		msg = fmt.Sprintf("dayMatches differs from the documented day rule (both fields must match when one of them is '*'/'?', either when both are restricted) in %d of 16 cases", len(wrong))
-	}
-	r.Check(len(wrong) == 0, "C04.N1-either-day", construct, p.Pos(dm.Pos()), "16/16 rows agree", msg, wrong...)
-}
-
 // ---------------------------------------------------------------------------
 // D1 descriptors
 
 func (st *c04State) evalGlobals() map[*ssa.Global]any {
 	g := map[*ssa.Global]any{}
 	sp := st.p.SSA.Package(st.p.Pkg("cron").Types)
-	for _, role := range c04Roles {
-		b := st.bounds[role.Field]
-		if gv, ok := sp.Members[role.Bounds].(*ssa.Global); ok {
-			g[gv] = &c04Struct{F: []any{c04Int{V: b.Min, Bits: 64}, c04Int{V: b.Max, Bits: 64}, c04Poison{"names map"}}}
+	stt := st.boundsT.Underlying().(*types.Struct)
+	for name, b := range st.tables {
+		gv, ok := sp.Members[name].(*ssa.Global)
+		if !ok {
+			continue
 		}
+		sv := &c04Struct{}
+		for i := 0; i < stt.NumFields(); i++ {
+			fn := stt.Field(i).Name()
+			if fn == st.namesF {
+				sv.F = append(sv.F, c04Poison{"names map"})
+			} else {
+				sv.F = append(sv.F, c04MkInt(stt.Field(i).Type(), b.Fields[fn]))
+			}
+		}
+		g[gv] = sv
 	}
 	return g
+}
+
+// descriptorFn: the function Parse hands "@..." expressions to (role: takes
+// the descriptor and a *time.Location, returns a Schedule).
+func (st *c04State) descriptorFn() *ssa.Function {
+	if st.descFn == nil {
+		st.r.Undecide("Parser.Parse: the function that turns '@...' descriptors into schedules (takes a *time.Location, returns a Schedule) was not found among its calls")
+	}
+	return st.descFn
+}
+
+// descArgs builds the argument list (descriptor string, location) for the descriptor function.
+func c04DescArgs(pd *ssa.Function, name string, loc any) ([]any, bool) {
+	args := make([]any, len(pd.Params))
+	nStr, nLoc := 0, 0
+	for i, par := range pd.Params {
+		switch {
+		case namedKey(par.Type()) == "time.Location":
+			args[i] = loc
+			nLoc++
+		default:
+			if bt, ok := par.Type().Underlying().(*types.Basic); ok && bt.Kind() == types.String {
+				args[i] = name
+				nStr++
+			} else {
+				args[i] = c04Poison{"parameter " + par.Name()}
+			}
+		}
+	}
+	return args, nStr == 1 && nLoc == 1
 }
 
 func (st *c04State) checkDescriptors() {
@@ -715,13 +815,12 @@ func (st *c04State) checkDescriptors() {
 	if why != "" || len(descs) == 0 {
 		undecided("doc.go: the 'Predefined schedules' table was not found (%s)", why)
 	}
-	pd := p.Func("cron", "parseDescriptor")
-	getBits := p.Func("cron", "getBits")
-	allFn := p.Func("cron", "all")
-	// field order of the bounds struct must be (min,max,names) for evalGlobals
-	bt := p.Named("cron", "bounds").Underlying().(*types.Struct)
-	if bt.NumFields() != 3 || bt.Field(0).Name() != "min" || bt.Field(1).Name() != "max" {
-		r.Undecide("cron.bounds no longer has the fields (min, max, names): constant evaluation of descriptors not possible")
+	pd := st.descriptorFn()
+	if pd == nil {
+		return
+	}
+	if st.starBit == 0 {
+		r.Undecide("the star bit (the mask Next tests Dom/Dow with) is not known: descriptors cannot be compared")
 		return
 	}
 	specT := p.Named("cron", "SpecSchedule").Underlying().(*types.Struct)
@@ -730,48 +829,26 @@ func (st *c04State) checkDescriptors() {
 		fieldIdx[specT.Field(i).Name()] = i
 	}
 	globals := st.evalGlobals()
+	// The encoding is fixed by the matcher: Next tests value v of field F with bit 1<<v
+	// (P3) and reads "the field is '*'" from the star bit (N1). So a number n encodes as
+	// 1<<n and '*' as every bit of the documented range plus the star bit.
 	enc := func(role c04Role, term string) (uint64, string) {
 		b := st.bounds[role.Field]
-		ev := &c04Eval{Globals: globals, InModule: p.InModule}
+		if b == nil {
+			return 0, "the field table of " + role.Field + " is not known"
+		}
 		if term == "*" || term == "?" {
-			res, err := ev.Run(allFn, []any{&c04Struct{F: []any{c04Int{V: b.Min, Bits: 64}, c04Int{V: b.Max, Bits: 64}, c04Poison{"names"}}}})
-			if err != nil {
-				return 0, err.Error()
+			var v uint64
+			for i := b.Min; i <= b.Max && i < 64; i++ {
+				v |= 1 << i
 			}
-			i, ok := res.(c04Int)
-			if !ok {
-				return 0, "all() does not fold: " + c04Describe(res)
-			}
-			return i.V, ""
+			return v | st.starBit, ""
 		}
 		n, err := strconv.ParseUint(term, 10, 64)
-		if err != nil {
+		if err != nil || n > 62 {
 			return 0, "doc.go: term '" + term + "' of an equivalent expression is neither a number nor '*'"
 		}
-		res, err2 := ev.Run(getBits, []any{c04Int{V: n, Bits: 64}, c04Int{V: n, Bits: 64}, c04Int{V: 1, Bits: 64}})
-		if err2 != nil {
-			return 0, err2.Error()
-		}
-		i, ok := res.(c04Int)
-		if !ok {
-			return 0, "getBits does not fold: " + c04Describe(res)
-		}
-		return i.V, ""
-	}
-	// `all(b)` must carry the star bit on top of the plain range (it stands for '*')
-	for _, role := range c04Roles {
-		b := st.bounds[role.Field]
-		star, w1 := enc(role, "*")
-		ev := &c04Eval{Globals: globals, InModule: p.InModule}
-		plain, err := ev.Run(getBits, []any{c04Int{V: b.Min, Bits: 64}, c04Int{V: b.Max, Bits: 64}, c04Int{V: 1, Bits: 64}})
-		if w1 != "" || err != nil {
-			r.Undecide("cron.all/getBits cannot be folded for %s: %s %v", role.Bounds, w1, err)
-			return
-		}
-		if pi, ok := plain.(c04Int); !ok || star != pi.V|st.starBit || pi.V&st.starBit != 0 {
-			r.Violation("C04.D1-descriptors", "cron.all("+role.Bounds+")", p.Pos(allFn.Pos()), fmt.Sprintf("all(%s) folds to %#x, expected the full range plus the star bit %#x: a '*' written by a descriptor is treated as a restriction by dayMatches", role.Bounds, star, st.starBit))
-			return
-		}
+		return 1 << n, ""
 	}
 	for _, d := range descs {
 		if len(d.Equiv) != 5 {
@@ -782,20 +859,25 @@ func (st *c04State) checkDescriptors() {
 			terms[0] = st.defs[0].Str
 		}
 		for _, name := range d.Names {
-			construct := "cron.parseDescriptor " + name
+			construct := "cron descriptor " + name
+			args, okArgs := c04DescArgs(pd, name, c04Sym{"loc"})
+			if !okArgs {
+				r.Undecide("%s does not take exactly one string and one *time.Location", FuncName(p, pd))
+				return
+			}
 			ev := &c04Eval{Globals: globals, InModule: p.InModule}
-			res, err := ev.Run(pd, []any{name, c04Poison{"loc"}})
+			res, err := ev.Run(pd, args)
 			if err != nil {
-				r.Undecide("parseDescriptor(%q) does not fold to a constant schedule: %v", name, err)
+				r.Undecide("%s(%q) does not fold to a constant schedule: %v", FuncName(p, pd), name, err)
 				continue
 			}
 			tup, ok := res.(c04Tuple)
 			if !ok || len(tup) != 2 {
-				r.Undecide("parseDescriptor(%q): unexpected result shape", name)
+				r.Undecide("%s(%q): unexpected result shape", FuncName(p, pd), name)
 				continue
 			}
 			if _, isNil := tup[1].(c04Nil); !isNil {
-				r.Violation("C04.D1-descriptors", construct, p.Pos(pd.Pos()), "the documented descriptor "+name+" is not recognised by parseDescriptor (folds to the error path)")
+				r.Violation("C04.D1-descriptors", construct, p.Pos(pd.Pos()), "the documented descriptor "+name+" is not recognised by "+FuncName(p, pd)+" (folds to the error path)")
 				continue
 			}
 			ptr, ok := tup[0].(c04Ptr)
@@ -804,7 +886,7 @@ func (st *c04State) checkDescriptors() {
 				sv, _ = c04load(ptr).(*c04Struct)
 			}
 			if sv == nil {
-				r.Undecide("parseDescriptor(%q) does not return a SpecSchedule literal", name)
+				r.Undecide("%s(%q) does not return a SpecSchedule literal", FuncName(p, pd), name)
 				continue
 			}
 			var diffs []string
@@ -818,19 +900,23 @@ func (st *c04State) checkDescriptors() {
 				}
 				got, ok := sv.F[fieldIdx[role.Field]].(c04Int)
 				if !ok {
-					r.Undecide("parseDescriptor(%q): SpecSchedule.%s does not fold to a constant (%s)", name, role.Field, c04Describe(sv.F[fieldIdx[role.Field]]))
+					r.Undecide("%s(%q): SpecSchedule.%s does not fold to a constant (%s)", FuncName(p, pd), name, role.Field, c04Describe(sv.F[fieldIdx[role.Field]]))
 					undec = true
 					break
 				}
 				if got.V != want {
-					diffs = append(diffs, fmt.Sprintf("%s=%#x, but '%s' encodes as %#x", role.Field, got.V, terms[i], want))
+					extra := ""
+					if got.V|st.starBit == want {
+						extra = " (the star bit is missing: the day rule treats this '*' as a restriction)"
+					}
+					diffs = append(diffs, fmt.Sprintf("%s=%#x, but '%s' encodes as %#x%s", role.Field, got.V, terms[i], want, extra))
 				}
 			}
 			if undec {
 				continue
 			}
 			r.Check(len(diffs) == 0, "C04.D1-descriptors", construct, p.Pos(pd.Pos()), "= "+strings.Join(terms, " "),
-				fmt.Sprintf("%s is documented as '%s' but parseDescriptor builds %s", name, strings.Join(d.Equiv, " "), strings.Join(diffs, "; ")))
+				fmt.Sprintf("%s is documented as '%s' but the schedule built for it has %s", name, strings.Join(d.Equiv, " "), strings.Join(diffs, "; ")))
 		}
 	}
 }
@@ -840,7 +926,11 @@ func (st *c04State) checkDescriptors() {
 func (st *c04State) checkOptional() {
 	r, p := st.r, st.p
 	rule := "C04.P2-optional"
-	nf := p.Func("cron", "normalizeFields")
+	nf := st.normaliser
+	if nf == nil || st.normaliserFieldsArg < 0 || st.normaliserFieldsArg >= len(nf.Params) {
+		r.Undecide("Parser.Parse: the function that expands the raw columns (takes the result of strings.Fields, returns []string) was not found: the filling of omitted optional columns cannot be checked")
+		return
+	}
 	pkg := p.Pkg("cron")
 	optVal := map[string]uint64{}
 	for _, n := range []string{"SecondOptional", "DowOptional"} {
@@ -860,11 +950,7 @@ func (st *c04State) checkOptional() {
 		}
 		return -1
 	}
-	if len(nf.Params) == 0 {
-		r.Undecide("normalizeFields has no parameters")
-		return
-	}
-	fieldsPar := nf.Params[0]
+	fieldsPar := nf.Params[st.normaliserFieldsArg]
 	fromFields := func(v ssa.Value) bool {
 		return c04ThroughPhis(v, func(x ssa.Value) bool {
 			if x == ssa.Value(fieldsPar) {
@@ -892,19 +978,23 @@ func (st *c04State) checkOptional() {
 			return
 		}
 		g, ok := gl.X.(*ssa.Global)
-		if !ok || g.Name() != "defaults" {
+		if !ok || g.Name() != st.defsVar || g.Pkg == nil || g.Pkg.Pkg.Path() != st.pkgPath {
 			return
 		}
 		// which option test dominates this load?
 		opt := ""
-		for _, dc := range domConds(ld.Block()) {
+		for _, dc := range c04DomConds(ld.Block()) {
 			cmp, ok := decodeCond(dc.If.Cond, dc.Branch)
 			if !ok {
 				continue
 			}
 			and, ok := cmp.X.(*ssa.BinOp)
 			kz, isZ := c04ConstInt(cmp.Y)
-			if !ok || and.Op != token.AND || !isZ || kz != 0 || (cmp.Op != token.GTR && cmp.Op != token.NEQ) {
+			if !ok || and.Op != token.AND || !isZ {
+				continue
+			}
+			// options&C > 0, != 0, or == C
+			if !((kz == 0 && (cmp.Op == token.GTR || cmp.Op == token.NEQ)) || (kz != 0 && cmp.Op == token.EQL)) {
 				continue
 			}
 			for _, side := range []ssa.Value{and.X, and.Y} {
@@ -920,7 +1010,7 @@ func (st *c04State) checkOptional() {
 		if opt == "" {
 			return
 		}
-		construct := "cron.normalizeFields omitted " + opt + " column"
+		construct := "cron omitted " + opt + " column"
 		seen[opt] = true
 		ti := idxOf(twin[opt])
 		if ti < 0 || int(k) >= len(st.defs) || ti >= len(st.defs) {
@@ -962,7 +1052,7 @@ func (st *c04State) checkOptional() {
 	})
 	for _, n := range []string{"SecondOptional", "DowOptional"} {
 		if !seen[n] {
-			r.Undecide("normalizeFields: no defaults[const] load under a test of %s found", n)
+			r.Undecide("%s: no defaults[const] load under a test of %s found", FuncName(p, nf), n)
 		}
 	}
 }
@@ -977,7 +1067,7 @@ func (st *c04State) checkLocation() {
 	pkg := p.Pkg("cron")
 	doc, _ := c04PackageDoc(pkg)
 	_, descs, _ := c04ParseDoc(doc)
-	pd := p.Func("cron", "parseDescriptor")
+	pd := st.descFn
 	specT := p.Named("cron", "SpecSchedule").Underlying().(*types.Struct)
 	locIdx := -1
 	for i := 0; i < specT.NumFields(); i++ {
@@ -988,15 +1078,19 @@ func (st *c04State) checkLocation() {
 	if locIdx < 0 {
 		undecided("anchor field cron.SpecSchedule.Location no longer resolves")
 	}
-	// which parameter of parseDescriptor is the location?
+	// which parameter of the descriptor function is the location?
 	locPar := -1
-	for i, par := range pd.Params {
-		if namedKey(par.Type()) == "time.Location" {
-			locPar = i
+	if pd != nil {
+		for i, par := range pd.Params {
+			if namedKey(par.Type()) == "time.Location" {
+				locPar = i
+			}
 		}
 	}
-	if locPar < 0 || len(pd.Params) != 2 {
-		r.Undecide("parseDescriptor no longer takes (descriptor, *time.Location)")
+	if pd == nil {
+		// reported by the descriptors rule
+	} else if _, okArgs := c04DescArgs(pd, "", nil); !okArgs {
+		r.Undecide("%s no longer takes (descriptor, *time.Location)", FuncName(p, pd))
 	} else {
 		globals := st.evalGlobals()
 		if tp := p.All["time"]; tp != nil {
@@ -1011,14 +1105,12 @@ func (st *c04State) checkLocation() {
 		sentinel := c04Sym{"loc"}
 		for _, d := range descs {
 			for _, name := range d.Names {
-				construct := "cron.parseDescriptor " + name + " Location"
-				args := make([]any, 2)
-				args[1-locPar] = name
-				args[locPar] = sentinel
+				construct := "cron descriptor " + name + " Location"
+				args, _ := c04DescArgs(pd, name, sentinel)
 				ev := &c04Eval{Globals: globals, InModule: p.InModule}
 				res, err := ev.Run(pd, args)
 				if err != nil {
-					r.Undecide("parseDescriptor(%q) does not fold: %v", name, err)
+					r.Undecide("%s(%q) does not fold: %v", FuncName(p, pd), name, err)
 					continue
 				}
 				tup, ok := res.(c04Tuple)
@@ -1030,7 +1122,7 @@ func (st *c04State) checkLocation() {
 				}
 				if sv == nil {
 					// D1 reports a descriptor that is not recognised
-					r.Undecide("parseDescriptor(%q) does not return a SpecSchedule literal", name)
+					r.Undecide("%s(%q) does not return a SpecSchedule literal", FuncName(p, pd), name)
 					continue
 				}
 				got := sv.F[locIdx]
@@ -1044,107 +1136,81 @@ func (st *c04State) checkLocation() {
 					if sym, isSym := got.(c04Sym); isSym {
 						what = sym.Name
 					}
-					r.Violation(rule, construct, p.Pos(pd.Pos()), "the SpecSchedule built for "+name+" does not carry the location handed to parseDescriptor (Location is "+what+"): 'CRON_TZ=Asia/Tokyo "+name+"' is interpreted on the wall clock of another zone (time.Local means the zone of the instant passed to Next), or Next fails on a nil location")
+					r.Violation(rule, construct, p.Pos(pd.Pos()), "the SpecSchedule built for "+name+" does not carry the location handed to the descriptor function (Location is "+what+"): 'CRON_TZ=Asia/Tokyo "+name+"' is interpreted on the wall clock of another zone (time.Local means the zone of the instant passed to Next), or Next fails on a nil location")
 				}
 			}
 		}
 	}
-	// Parse: the location stored in its own SpecSchedule and the one handed to parseDescriptor
+	// Parse: the location stored in its own SpecSchedule and the one handed to the descriptor function
 	parse := p.Func("cron", "Parser.Parse")
-	var loadLoc *ssa.Call
-	allInstrs(parse, func(in ssa.Instruction) {
-		if c, ok := in.(*ssa.Call); ok && callIs(c, "time", "", "LoadLocation") {
-			loadLoc = c
-		}
-	})
-	classify := func(v ssa.Value) (parsed, local bool, bad string) {
-		seen := map[ssa.Value]bool{}
-		var walk func(v ssa.Value)
-		walk = func(v ssa.Value) {
-			if seen[v] {
-				return
+	hasLoadLoc := false
+	for _, fn := range st.parserFuncs() {
+		allInstrs(fn, func(in ssa.Instruction) {
+			if c, ok := in.(*ssa.Call); ok && callIs(c, "time", "", "LoadLocation") {
+				hasLoadLoc = true
 			}
-			seen[v] = true
-			switch x := v.(type) {
-			case *ssa.Phi:
-				for _, e := range x.Edges {
-					walk(e)
-				}
-			case *ssa.Extract:
-				if c, ok := x.Tuple.(*ssa.Call); ok && callIs(c, "time", "", "LoadLocation") && x.Index == 0 {
-					parsed = true
-				} else {
-					bad = "?a value that is neither time.Local nor the result of time.LoadLocation"
-				}
-			case *ssa.UnOp:
-				if g, ok := x.X.(*ssa.Global); ok && x.Op == token.MUL && g.Pkg != nil && g.Pkg.Pkg.Path() == "time" {
-					if g.Name() == "Local" {
-						local = true
-					} else {
-						bad = "time." + g.Name()
-					}
-				} else {
-					bad = "?a value that is neither time.Local nor the result of time.LoadLocation"
-				}
+		})
+	}
+	judge := func(construct string, lt *c04T, what string) {
+		parsed, local := false, false
+		bad, unk := "", ""
+		for _, alt := range lt.alts() {
+			switch {
+			case alt.Op == "global" && alt.Name == "time.Local":
+				local = true
+			case alt.Op == "global" && strings.HasPrefix(alt.Name, "time."):
+				bad = alt.Name
+			case alt.Op == "extract" && alt.IsK && alt.K == 0 && len(alt.Args) == 1 && alt.Args[0].Op == "ext:time.LoadLocation":
+				parsed = true
 			default:
-				bad = "?a value that is neither time.Local nor the result of time.LoadLocation"
+				unk = alt.Op + " " + alt.Name
 			}
 		}
-		walk(v)
-		return
-	}
-	judge := func(construct string, v ssa.Value, pos token.Pos, what string) {
-		parsed, local, bad := classify(v)
+		pos := c04TermPos(p, lt, parse.Pos())
 		switch {
-		case strings.HasPrefix(bad, "?"):
-			r.Undecide("%s: %s is %s", construct, what, bad[1:])
+		case unk != "":
+			r.Undecide("%s: %s can be %s, neither time.Local nor the result of time.LoadLocation", construct, what, unk)
 		case bad != "":
-			r.Violation(rule, construct, p.Pos(pos), what+" can be "+bad+": without a TZ=/CRON_TZ= prefix the documented zone is time.Local (the zone of the instant given to Next), not a fixed zone")
-		case loadLoc != nil && !parsed:
-			r.Violation(rule, construct, p.Pos(pos), what+" never is the location parsed from the TZ=/CRON_TZ= prefix (the result of time.LoadLocation is dropped): 'CRON_TZ=Asia/Tokyo 0 6 * * ?' fires at 06:00 local time")
-		case !local && loadLoc == nil:
-			r.Undecide("%s: Parse no longer parses a time zone prefix with time.LoadLocation", construct)
+			r.Violation(rule, construct, pos, what+" can be "+bad+": without a TZ=/CRON_TZ= prefix the documented zone is time.Local (the zone of the instant given to Next), not a fixed zone")
+		case hasLoadLoc && !parsed:
+			r.Violation(rule, construct, pos, what+" never is the location parsed from the TZ=/CRON_TZ= prefix (the result of time.LoadLocation is dropped): 'CRON_TZ=Asia/Tokyo 0 6 * * ?' fires at 06:00 local time")
+		case !local && !hasLoadLoc:
+			r.Undecide("%s: the parser no longer parses a time zone prefix with time.LoadLocation", construct)
 		case !local:
-			r.Violation(rule, construct, p.Pos(pos), what+" is never time.Local: expressions without a TZ= prefix are not interpreted in the local zone as documented")
+			r.Violation(rule, construct, pos, what+" is never time.Local: expressions without a TZ= prefix are not interpreted in the local zone as documented")
 		default:
-			r.OK(rule, construct, p.Pos(pos), what+" is the parsed TZ=/CRON_TZ= location, or time.Local without prefix")
+			r.OK(rule, construct, pos, what+" is the parsed TZ=/CRON_TZ= location, or time.Local without prefix")
 		}
 	}
-	var locStore *ssa.Store
-	haveLit := false
-	allInstrs(parse, func(in ssa.Instruction) {
-		if a, ok := in.(*ssa.Alloc); ok && namedKey(deref1(a.Type())) == st.spec {
-			haveLit = true
-		}
-		if s, ok := in.(*ssa.Store); ok {
-			if fa, ok := s.Addr.(*ssa.FieldAddr); ok {
-				if id := fieldIDOfAddr(fa); id.Type == st.spec && id.Field == "Location" {
-					if _, isAlloc := fa.X.(*ssa.Alloc); isAlloc {
-						locStore = s
-					}
-				}
-			}
-		}
-	})
 	c1 := "cron.Parser.Parse -> SpecSchedule.Location"
-	switch {
-	case locStore != nil:
-		judge(c1, locStore.Val, locStore.Pos(), "the Location stored by Parse")
-	case haveLit:
-		r.Violation(rule, c1, p.Pos(parse.Pos()), "Parse never sets SpecSchedule.Location: Next fails on (or ignores) the schedule's time zone")
-	default:
-		r.Undecide("Parser.Parse no longer builds the SpecSchedule itself: its Location cannot be traced")
-	}
-	c2 := "cron.Parser.Parse -> parseDescriptor loc"
-	var pdCall *ssa.Call
-	allInstrs(parse, func(in ssa.Instruction) {
-		if c, ok := in.(*ssa.Call); ok && staticCallee(c) == pd {
-			pdCall = c
-		}
-	})
-	if pdCall == nil || locPar < 0 || locPar >= len(pdCall.Call.Args) {
-		r.Undecide("Parser.Parse: no direct call of parseDescriptor found")
+	if len(st.parseLits) == 0 {
+		r.Undecide("Parser.Parse: no SpecSchedule built by Parse reaches its result: its Location cannot be traced")
 	} else {
-		judge(c2, pdCall.Call.Args[locPar], pdCall.Pos(), "the location handed to parseDescriptor")
+		var alts []*c04T
+		for _, lit := range st.parseLits {
+			alts = append(alts, lit.Args[locIdx])
+		}
+		lt := c04Choice(alts)
+		if lt.Op == "const" && strings.HasPrefix(lt.Name, "zero:") {
+			r.Violation(rule, c1, p.Pos(parse.Pos()), "Parse never sets SpecSchedule.Location: Next fails on (or ignores) the schedule's time zone")
+		} else {
+			judge(c1, lt, "the Location stored by Parse")
+		}
+	}
+	c2 := "cron.Parser.Parse -> descriptor function loc"
+	var pdCall *c04T
+	for _, row := range st.parseResults {
+		for _, t := range row {
+			t.walk(func(x *c04T) {
+				if c, ok := x.Src.(*ssa.Call); ok && x.Op == "call" && pd != nil && staticCallee(c) == pd {
+					pdCall = x
+				}
+			})
+		}
+	}
+	if pdCall == nil || locPar < 0 || locPar >= len(pdCall.Args) {
+		r.Undecide("Parser.Parse: no call of the descriptor function found")
+	} else {
+		judge(c2, pdCall.Args[locPar], "the location handed to the descriptor function")
 	}
 }
